@@ -329,6 +329,14 @@ func (p *Process) waitForStarted() {
 	}
 }
 
+// isStarted reports whether the process was released from its dependencies
+// and entered its run loop (its goroutine will reach onProcessEnd).
+func (p *Process) isStarted() bool {
+	p.Lock()
+	defer p.Unlock()
+	return p.started
+}
+
 func (p *Process) waitForCompletion() int {
 	p.Lock()
 	defer p.Unlock()
